@@ -418,3 +418,17 @@ class AsyncStopMotor(Motor):
         self.lab.device_call(self, "stop")
         await asyncio.sleep(0)
         await asyncio.sleep(0)
+
+
+class StatusStageDet(Det):
+    """ophyd-async style device: stage()/unstage() return a Status instead of a list."""
+
+    def stage(self):
+        j = self.lab.device_call(self, "stage")
+        self.staged += 1
+        return self.lab.status(j, 0.05)
+
+    def unstage(self):
+        j = self.lab.device_call(self, "unstage")
+        self.staged -= 1
+        return self.lab.status(j, 0.05)
